@@ -371,6 +371,14 @@ type Chain struct {
 	// Verdict decides the reply to a broadcast block (nil: accept everything).
 	Verdict func(pid string, b *types.Block) *types.Reply
 	NGetBlocks, NHeader, NOther int64
+	// Synth: every height <= the model height that has no explicit block is served as SynthBlock(h)
+	Synth bool
+}
+
+// SynthBlock is the deterministic block the fake chain holds at height h when Synth is set.
+func SynthBlock(h int64) *types.Block {
+	return &types.Block{Height: h, BlockTime: 1700000000 + h, ParentHash: []byte(fmt.Sprintf("synth-parent-%d", h-1)),
+		StateHash: []byte(fmt.Sprintf("synth-state-%d", h)), TxHash: []byte("synth-txhash"), Difficulty: 0x1f00ffff}
 }
 
 func newChain(cfg *types.Chain33Config, h int64) *Chain {
@@ -491,18 +499,29 @@ func (n *Node) startResponders() {
 			req, _ := msg.Data.(*types.ReqBlocks)
 			atomic.AddInt64(&c.NGetBlocks, 1)
 			res := &types.BlockDetails{}
-			if req != nil && req.End >= req.Start && req.End-req.Start >= 0 && req.End-req.Start <= 256 {
-				c.Mu.Lock()
-				for h := req.Start; h <= req.End; h++ {
-					if b, ok := c.Blocks[h]; ok {
-						res.Items = append(res.Items, &types.BlockDetail{Block: b})
-					}
-				}
+			c.Mu.Lock()
+			cur := c.Header.Height
+			if req == nil || req.Start > cur || req.End < req.Start || req.Start < 0 {
 				c.Mu.Unlock()
+				// like blockchain.ProcGetBlockDetailsMsg: an error value is the reply
+				msg.Reply(cli.NewMessage("", types.EventBlocks, types.ErrStartBigThanEnd))
+				break
 			}
-			if len(res.Items) == 0 && req != nil && n.Opts.Height < 0 {
-				// never
+			end := req.End
+			if end > cur {
+				end = cur
 			}
+			if end-req.Start > 256 {
+				end = req.Start + 256
+			}
+			for h := req.Start; h <= end; h++ {
+				if b, ok := c.Blocks[h]; ok {
+					res.Items = append(res.Items, &types.BlockDetail{Block: b})
+				} else if c.Synth {
+					res.Items = append(res.Items, &types.BlockDetail{Block: SynthBlock(h)})
+				}
+			}
+			c.Mu.Unlock()
 			msg.Reply(cli.NewMessage("", types.EventBlocks, res))
 		case marker:
 			msg.Reply(cli.NewMessage("", marker, nil))
